@@ -18,6 +18,8 @@ from collections import Counter
 from dataclasses import dataclass, field
 
 VERIF_DIR = os.path.dirname(os.path.dirname(os.path.abspath(__file__)))
+# where evidence/ and replays/ are written: /verif itself, except for developer runs against scratch copies (mutants)
+OUT_DIR = os.environ.get("VPBT_OUT", VERIF_DIR)
 NPROC = int(os.environ.get("VPBT_NPROC", "16"))
 
 
@@ -395,7 +397,7 @@ def run_check(pid, tier, seed_value, replay=None):
             items = sorted(new.items(), key=lambda kv: -kv[1]["count"])[:8]
             margs = [(pid, f["part"], tier, s, f["case"], seed_value) for s, f in items]
             mins = list(ex.map(_run_minimise, margs))
-            os.makedirs(os.path.join(VERIF_DIR, "replays"), exist_ok=True)
+            os.makedirs(os.path.join(OUT_DIR, "replays"), exist_ok=True)
             for (s, f), m in zip(items, mins):
                 case = f["case"]
                 note = "unminimised"
@@ -405,7 +407,7 @@ def run_check(pid, tier, seed_value, replay=None):
                 path = os.path.join("replays", f"{pid}-{h}.json")
                 json.dump({"property": pid, "part": f["part"], "signature": s, "violation": f["violation"],
                            "count": f["count"],
-                           "case": case, "minimisation": note}, open(os.path.join(VERIF_DIR, path), "w"),
+                           "case": case, "minimisation": note}, open(os.path.join(OUT_DIR, path), "w"),
                           indent=1, default=str)
                 replays.append((s, path, f))
 
@@ -438,8 +440,8 @@ def run_check(pid, tier, seed_value, replay=None):
         "wall_s": round(wall, 2),
         "violations": len(new) + len(regress_bad),
     }
-    os.makedirs(os.path.join(VERIF_DIR, "evidence"), exist_ok=True)
-    json.dump(ev, open(os.path.join(VERIF_DIR, "evidence", f"{pid}.json"), "w"), indent=1, default=str)
+    os.makedirs(os.path.join(OUT_DIR, "evidence"), exist_ok=True)
+    json.dump(ev, open(os.path.join(OUT_DIR, "evidence", f"{pid}.json"), "w"), indent=1, default=str)
 
     print(f"[{pid}] tier={tier} seed={seed_value} cases={agg['evaluations']} "
           f"nontrivial={len(agg['nontrivial'])} oracle_evals={agg['oracle_evals']} "
